@@ -90,11 +90,12 @@ type Path struct {
 
 	ex *Explorer
 
-	GoHook       func(fr *frame, fn Value, args []Value)
-	RecvHook     func(fr *frame, ch *Chan, elem types.Type) (Value, bool)
-	MapOrderHook func(fr *frame, es []*mapEntry) []*mapEntry
-	LockHook     func(fr *frame, mu *Value, op string)
-	ClockHook    func(fr *frame) Value
+	GoHook        func(fr *frame, fn Value, args []Value)
+	RecvHook      func(fr *frame, ch *Chan, elem types.Type) (Value, bool)
+	MapOrderHook  func(fr *frame, es []*mapEntry) []*mapEntry
+	LockHook      func(fr *frame, mu *Value, op string)
+	ClockHook     func(fr *frame) Value
+	UnmarshalHook func(fr *frame, enc string, data Value, dst Iface) (Value, bool)
 
 	state map[string]interface{} // scratch for intrinsics (hash states, id counters…)
 }
